@@ -2,6 +2,7 @@
 //      expression/variable.rs, expression/assignment.rs (insert_type_def), expression/op.rs
 //      (resolve_constant), stdlib/del.rs (DelFn::type_info)
 // Kinds / type definitions are opaque: only the *constant* component of Details matters here.
+#[derive(PartialEq, Eq, Structural)]
 pub struct TypeDef { pub id: u64 }
 impl Clone for TypeDef {
     #[verifier::external_body]
@@ -15,6 +16,7 @@ impl TypeDef {
     #[verifier::external_body] pub fn impure(self) -> (r: TypeDef) { unimplemented!() }
     #[verifier::external_body] pub fn kind(&self) -> (r: &KindObj) { unimplemented!() }
 }
+#[derive(PartialEq, Eq, Structural)]
 pub struct KindObj { pub id: u64 }
 impl Clone for KindObj {
     #[verifier::external_body]
@@ -31,10 +33,39 @@ impl Clone for Details {
     fn clone(&self) -> (r: Self) ensures r == *self { unimplemented!() }
 }
 
-// LocalEnv.bindings: HashMap<Ident, Details> as a ghost map (ident id -> Details)
-pub struct LocalEnv { pub bindings: Ghost<Map<u64, Details>> }
+// LocalEnv.bindings: HashMap<Ident, Details> as a ghost map (ident id -> Details) with the std
+// HashMap contracts of get / get_mut / insert / consuming iteration
+pub struct BindMap { pub m: Ghost<Map<u64, Details>> }
+impl Clone for BindMap {
+    #[verifier::external_body]
+    fn clone(&self) -> (r: Self) ensures r == *self { unimplemented!() }
+}
+pub open spec fn entries_of(e: Seq<(Ident, Details)>, m: Map<u64, Details>) -> bool {
+    &&& forall|i: int| 0 <= i < e.len() ==> m.dom().contains((#[trigger] e[i]).0.id) && m[e[i].0.id] == e[i].1
+    &&& forall|i: int, j: int| 0 <= i < j < e.len() ==> (#[trigger] e[i]).0.id != (#[trigger] e[j]).0.id
+    &&& forall|id: u64| m.dom().contains(id) ==> exists|i: int| 0 <= i < e.len() && (#[trigger] e[i]).0.id == id
+}
+impl BindMap {
+    #[verifier::external_body]
+    pub fn get_mut(&mut self, k: &Ident) -> (r: Option<&mut Details>)
+        ensures match r {
+            Some(d) => old(self).m@.dom().contains(k.id) && *d == old(self).m@[k.id] && final(self).m@ == old(self).m@.insert(k.id, *final(d)),
+            None => !old(self).m@.dom().contains(k.id) && final(self).m@ == old(self).m@,
+        },
+    { unimplemented!() }
+    #[verifier::external_body]
+    pub fn insert(&mut self, k: Ident, d: Details) -> (r: Option<Details>)
+        ensures final(self).m@ == old(self).m@.insert(k.id, d),
+    { unimplemented!() }
+    // `for (ident, details) in map` : every entry exactly once, in some order
+    #[verifier::external_body]
+    pub fn into_entries(self) -> (r: Vec<(Ident, Details)>)
+        ensures entries_of(r@, self.m@),
+    { unimplemented!() }
+}
+pub struct LocalEnv { pub bindings: BindMap }
 pub open spec fn binding(l: LocalEnv, id: u64) -> Option<Details> {
-    if l.bindings@.dom().contains(id) { Some(l.bindings@[id]) } else { None }
+    if l.bindings.m@.dom().contains(id) { Some(l.bindings.m@[id]) } else { None }
 }
 impl Clone for LocalEnv {
     #[verifier::external_body]
@@ -49,9 +80,11 @@ impl LocalEnv {
     { unimplemented!() }
     #[verifier::external_body]
     pub fn insert_variable(&mut self, ident: Ident, details: Details)
-        ensures final(self).bindings@ == old(self).bindings@.insert(ident.id, details),
+        ensures final(self).bindings.m@ == old(self).bindings.m@.insert(ident.id, details),
     { unimplemented!() }
 }
+pub open spec fn const_of_local(l: LocalEnv, id: u64) -> Option<Value> { opt_const(binding(l, id)) }
+pub open spec fn opt_const(o: Option<Details>) -> Option<Value> { match o { Some(d) => d.value, None => None } }
 pub struct ExternalEnv { pub target: Details, pub metadata: KindObj }
 impl Clone for ExternalEnv {
     #[verifier::external_body]
